@@ -108,7 +108,10 @@ CHECKS["C15"] = dict(
           "of an address, a mark on a retired object or a removal with the other type (set); a contrary run was interrupted (hysteresis); "
           "all concurrent cases. part markrace: a health mark (MarkHostHealthy on an unhealthy member / MarkHostUnhealthy) released at the same "
           "instant as Remove(fresh object) / ReplaceAll / Add(replacing object) of the same address, 40000 (thorough 200000) pairs per "
-          "case: at quiescence Healthy() contains only current members and every healthy member. Distinct by canonical JSON."),
+          "case: at quiescence Healthy() contains only current members and every healthy member. part afterchange: sets of 1..20000 main "
+          "hosts (+0..50 backups); after every generated change (remove with a fresh object, mark, add, retype, all mains down / one up, "
+          "replace-all) has RETURNED, 2..8 readers are released at the same instant and call Healthy() 1..5 times each with no change in "
+          "flight: every result must be exactly the model's usable view (pointer identity, order). Distinct by canonical JSON."),
     assumptions=["added hosts are always fresh objects (every production caller creates them with host.NewWithType)",
                  "'>' vs '>=' in the threshold comparison both satisfy 'at least threshold'"],
     parts=[
@@ -117,6 +120,7 @@ CHECKS["C15"] = dict(
         dict(name="hysteresis", test="TestHysteresis", kind="rapid", checks={"quick": 3000, "thorough": 150000}, shards=8, timeout={"quick": 600, "thorough": 3000}),
         dict(name="concurrent", test="TestSetConcurrent", kind="rapid", checks={"quick": 40, "thorough": 2000}, shards=4, timeout={"quick": 600, "thorough": 3000}),
         dict(name="markrace", test="TestMarkRace", kind="rapid", checks={"quick": 6, "thorough": 40}, shards=16, timeout={"quick": 600, "thorough": 3000}, shrinktime="5s"),
+        dict(name="afterchange", test="TestAfterChange", kind="rapid", checks={"quick": 300, "thorough": 6000}, shards=16, timeout={"quick": 600, "thorough": 3000}, shrinktime="10s"),
     ],
 )
 
@@ -210,12 +214,16 @@ CHECKS["C08"] = dict(
           "config is the latest object and its folded host set == latest endpoint set; exactly one running processor per service; no call "
           "after Stop. part converge-concurrent: short histories (service announced, then 1..6 endpoint updates with both lists right "
           "behind it) with a concurrent forwarder instead of pacing, so store and controller really race as in production; each history is "
-          "executed 40 times. part grpc (package disc, shared with C16): the real dynamic source (config.New with a DynamicSourceConfig: grpc.Dial, the three real discovery clients, their retry loops and the dependency hook of config/dynamic.go + config/discovery.go), the real store and the real controller against an in-process gRPC discovery server; rapid-generated histories (2..16 steps after 0..3 complete services) of dependency pushes (also bursts of 10..24 names, remove and re-add back to back), configuration and endpoint pushes, killing the dependency / config / endpoint stream, stopping and restarting the server on its port, pauses 1..1300 ms, and settle points. The server answers every subscription with the service's full state (endpoints: current list as added, removed ones - or, in half of the cases, every endpoint it ever had - as removed). Oracle at every settle point and at the end: within 45 s every scope has a live stream whose folded requests (a name in both lists of one request accepted either way) equal the dependency set, every server message is taken, and within 15 s more the store's view equals the server's truth and there is exactly one running processor for every dependency with a valid configuration and a non-empty endpoint list, with that configuration and host set; it stays so after a quiet period. Non-trivial: an endpoint update with both lists hit a running service, or a dependency was removed and re-added, "
+          "executed 40 times. part converge-streams: after a sequential prefix the configuration updates, the endpoint updates (services a, b) and "
+          "dependency changes (services c, d) are delivered by three goroutines at once, as the three discovery streams do in production, while a "
+          "forwarder that waits 0..1000 us per event lets the store's 32-slot event channel fill up so that handlers block in their sends; the streams touch "
+          "disjoint parts of the state, so the fold model does not depend on their interleaving; same oracle at quiescence, each history executed 6 times. part grpc (package disc, shared with C16): the real dynamic source (config.New with a DynamicSourceConfig: grpc.Dial, the three real discovery clients, their retry loops and the dependency hook of config/dynamic.go + config/discovery.go), the real store and the real controller against an in-process gRPC discovery server; rapid-generated histories (2..16 steps after 0..3 complete services) of dependency pushes (also bursts of 10..24 names, remove and re-add back to back), configuration and endpoint pushes, killing the dependency / config / endpoint stream, stopping and restarting the server on its port, pauses 1..1300 ms, and settle points. The server answers every subscription with the service's full state (endpoints: current list as added, removed ones - or, in half of the cases, every endpoint it ever had - as removed). Oracle at every settle point and at the end: within 45 s every scope has a live stream whose folded requests (a name in both lists of one request accepted either way) equal the dependency set, every server message is taken, and within 15 s more the store's view equals the server's truth and there is exactly one running processor for every dependency with a valid configuration and a non-empty endpoint list, with that configuration and host set; it stays so after a quiet period. Non-trivial: an endpoint update with both lists hit a running service, or a dependency was removed and re-added, "
           "or the controller lagged >= 2 events; grpc: a stream or the server failed, or one push changed more than 16 dependencies. Distinct by canonical JSON of the history."),
     assumptions=["invalid configurations are generated only before a service's first valid one (what should happen to a running processor on an invalid update is not stated)",
                  "a service that has only ever received removal-only endpoint updates is accepted with or without a processor (ambiguous in the statement)"],
     parts=[
         dict(name="converge-concurrent", test="TestConvergeConcurrent", kind="rapid", crash_is_violation=True, checks={"quick": 40, "thorough": 2000}, shards=16, timeout={"quick": 900, "thorough": 3400}, records=["converge", "converge-concurrent"]),
+        dict(name="converge-streams", test="TestConvergeStreams", kind="rapid", crash_is_violation=True, checks={"quick": 150, "thorough": 4000}, shards=16, timeout={"quick": 900, "thorough": 3400}, records=["converge-streams"], shrinktime="10s"),
         dict(name="converge", test="TestConverge", kind="rapid", crash_is_violation=True, checks={"quick": 2500, "thorough": 100000}, shards=16, timeout={"quick": 600, "thorough": 3000}),
         dict(name="grpc", pkg="disc", test="TestGrpcE2E", kind="rapid", checks={"quick": 4, "thorough": 150}, shards=16, timeout={"quick": 900, "thorough": 3400}, shrinktime="60s", gomaxprocs=4, crash_is_violation=True),
     ],
@@ -316,7 +324,7 @@ CHECKS["C07"] = dict(
     assumptions=["the periodic slot refresh runs every 50 ms and its minimum spacing is 5 ms in the harness (2 min / 5 s in production): recovery after a fail-over without any redirection is bounded by that period",
                  "connect time-outs against black-holed addresses are not generated (refused connects and resets are)"],
     parts=[
-        dict(name="heal", test="TestHeal", kind="rapid", checks={"quick": 14, "thorough": 500}, shards=16, timeout={"quick": 900, "thorough": 3400}, shrinktime="90s", gomaxprocs=4, crash_is_violation=True),
+        dict(name="heal", test="TestHeal", kind="rapid", checks={"quick": 30, "thorough": 500}, shards=16, timeout={"quick": 900, "thorough": 3400}, shrinktime="90s", gomaxprocs=4, crash_is_violation=True),
     ],
 )
 
